@@ -711,6 +711,11 @@ pub fn worker_main(cfg: EngineConfig) -> ! {
                     true
                 });
                 prog.set(0, 0);
+                let st = crate::extarg::take_stats();
+                if !st.is_empty() {
+                    // external-argument family: per-API call counts and oracle applications of this unit
+                    writeln!(out, "S\t{}", json!(st)).unwrap();
+                }
                 writeln!(
                     out,
                     "R\t{}\t{}\t{}\t{}\t{}\t{}\t{}\t{}\t{}\t{}",
@@ -859,6 +864,7 @@ struct Totals {
     units_done: usize,
     by_class: BTreeMap<String, u64>,
     ok_by_type: BTreeMap<usize, u64>,
+    extarg: BTreeMap<String, u64>,
     machinery: Option<String>,
 }
 
@@ -1026,6 +1032,12 @@ fn supervise(plan: &Plan, tier: Tier, b: &Bounds, explicit: Option<Vec<String>>,
                                         identity: v["identity"].as_str().unwrap_or("").into(),
                                         what: v["what"].as_str().unwrap_or("").into(),
                                     });
+                                }
+                            } else if let Some(rest) = l.strip_prefix("S\t") {
+                                if let Ok(Value::Object(m)) = serde_json::from_str::<Value>(rest) {
+                                    for (k, v) in m {
+                                        *local.extarg.entry(k).or_insert(0) += v.as_u64().unwrap_or(0);
+                                    }
                                 }
                             } else if let Some(rest) = l.strip_prefix("OK\t") {
                                 println!("replay: case returned, digest/calls/ignored_panics = {}", rest.replace('\t', " "));
@@ -1201,6 +1213,9 @@ fn supervise(plan: &Plan, tier: Tier, b: &Bounds, explicit: Option<Vec<String>>,
                 for (k, v) in local.ok_by_type {
                     *t.ok_by_type.entry(k).or_insert(0) += v;
                 }
+                for (k, v) in local.extarg {
+                    *t.extarg.entry(k).or_insert(0) += v;
+                }
                 if t.machinery.is_none() {
                     t.machinery = local.machinery;
                 }
@@ -1369,6 +1384,7 @@ pub fn engine_body(run: &Run, replay: Option<&Value>, cfg: &EngineConfig) {
     run.bound("u16_alphabet", json!(format!("0,1,0x7FFF,0x8000,0xFFFF,n-2,n-1,n,n+1,pos,pos+1,pos+2 at every {} position", if tier == Tier::Thorough { "(even and odd)" } else { "even" })));
     run.bound("u32_alphabet", json!("n-1,n,n+1,0x7FFFFFFF,0x80000000,0xFFFFFFFF at every even position"));
     run.bound("extensions", json!("{1,2,4} bytes of 00 / FF"));
+    run.bound("external_argument_family", crate::extarg::describe());
     run.bound("purity", json!(if b.purity_every_case { "every k=1 case at positions < 4096 of table/file/static seeds; other cases: first case of each work unit producing each new outcome class" } else { "first case of each work unit producing each new outcome class (read ok?, root field count, log2(accessor calls), error count)" }));
     let mut n_by_class: BTreeMap<&str, u64> = BTreeMap::new();
     for s in &plan.seeds {
@@ -1415,6 +1431,13 @@ pub fn engine_body(run: &Run, replay: Option<&Value>, cfg: &EngineConfig) {
     for (k, v) in &t.by_class {
         run.count(k, *v);
     }
+    // external-argument boundary family: measured per-API call counts ("extarg.<api>") and applications of each
+    // agreement oracle ("extarg.agree.<oracle>")
+    let apis = t.extarg.keys().filter(|k| !k.starts_with("agree.")).count() as u64;
+    run.count("extarg_apis_called", apis);
+    run.count("extarg_api_calls", t.extarg.iter().filter(|(k, _)| !k.starts_with("agree.")).map(|(_, v)| *v).sum());
+    run.count("extarg_agreement_checks", t.extarg.iter().filter(|(k, _)| k.starts_with("agree.")).map(|(_, v)| *v).sum());
+    run.extra("extarg_calls_per_api", json!(t.extarg));
     // vacuity guard per registry type: which types were never read successfully *as the top-level
     // type of a case* (they may still be reached through offsets of other tables)
     let never: Vec<&str> = crate::registry::TYPES
@@ -1482,8 +1505,40 @@ pub fn engine_main(cfg: EngineConfig) -> ! {
     if std::env::var("C01_PROFILE").is_ok() {
         profile(&cfg);
     }
+    if std::env::var("C01_EXTARG_DEV").is_ok() {
+        extarg_dev(&cfg);
+    }
     let property = cfg.property;
     vcore::main_for(property, move |run, replay| engine_body(run, replay, &cfg))
+}
+
+/// development aid: run only the external-argument family in-process (single thread), print every finding, the
+/// slowest seeds and the per-API counters
+fn extarg_dev(cfg: &EngineConfig) -> ! {
+    install_fn_hook();
+    let b = bounds_for(Tier::Quick, cfg.mode);
+    let mut seeds = vec![];
+    crate::extarg::extarg_seeds(&mut seeds);
+    let mut rows: Vec<(f64, u64, String)> = vec![];
+    let t_all = Instant::now();
+    for s in &seeds {
+        let mut ign = 0;
+        let t0 = Instant::now();
+        match run_case(s, &s.data, cfg, &b, &mut ign) {
+            Ok(o) => rows.push((t0.elapsed().as_secs_f64(), o.calls, s.name.clone())),
+            Err((k, id, what)) => println!("FOUND {k} | {id} | {what} | seed {}", s.name),
+        }
+    }
+    rows.sort_by(|a, b| b.0.partial_cmp(&a.0).unwrap());
+    for r in rows.iter().take(12) {
+        println!("{:8.1} ms {:9} calls {}", r.0 * 1e3, r.1, r.2);
+    }
+    let st = crate::extarg::take_stats();
+    for (k, v) in &st {
+        println!("{v:10} {k}");
+    }
+    println!("seeds={} total {:.2}s apis={} calls={}", seeds.len(), t_all.elapsed().as_secs_f64(), st.keys().filter(|k| !k.starts_with("agree.")).count(), st.iter().filter(|(k, _)| !k.starts_with("agree.")).map(|(_, v)| *v).sum::<u64>());
+    std::process::exit(0)
 }
 
 /// development aid: per-seed cost of the first unit (single thread), most expensive first
